@@ -1654,8 +1654,8 @@ theorem verifyMultiattr_true_elim (hA : ArithOK) {cs : Suite} {σ : Signature} {
     omega
   have he' : 2 ^ (cs.le - 1) < σ.e ∧ σ.e < 2 ^ cs.le := by omega
   have he0 : 0 ≤ σ.e := le_of_lt (lt_trans (by positivity) he'.1)
-  obtain ⟨x, hx, hxe, -⟩ := prodPow_run hA hN (by omega) (fun m hmm => (hm m hmm).1) msgs.length 0 1 t1
-    (by omega)
+  obtain ⟨x, hx, hxe, -⟩ := prodPow_run (msgs := msgs) (bases := bases) hA hN (Nat.le_of_not_lt hlen)
+    (fun m hmm => (hm m hmm).1) msgs.length 0 1 t1 (by omega)
   rw [List.drop_zero, hP] at hx
   simp only [CRes.ok.injEq, Prod.mk.injEq] at hx
   obtain ⟨rfl, rfl⟩ := hx
@@ -1678,7 +1678,10 @@ theorem verify_two_vectors (hA : ArithOK) {cs : Suite} {σ : Signature} {pk : Pu
   have hu : IsCoprime (bs₁ * pk.c) pk.N := (powMod_unit hA hN hbu hb₁).mul_left (cop_iff.1 hcu)
   have h : x₁ * (bs₁ * pk.c) ≡ x₂ * (bs₁ * pk.c) [ZMOD pk.N] := by
     rw [← mul_assoc, ← mul_assoc]
-    exact (tmod_modEq _ _).symm.trans ((by rw [← he₁, ← he₂] : _ = _) ▸ tmod_modEq _ _)
+    have h12 : tmod (x₁ * bs₁ * pk.c) pk.N = tmod (x₂ * bs₁ * pk.c) pk.N := he₁.symm.trans he₂
+    have h2 := tmod_modEq (x₂ * bs₁ * pk.c) pk.N
+    rw [← h12] at h2
+    exact (tmod_modEq _ _).symm.trans h2
   exact hx₁.symm.trans ((modEq_cancel_right hu h).trans hx₂)
 
 /-- `a^m ≡ a^{m'}` for a unit `a` and `m ≠ m'` gives a multiple of the order of `a`. -/
@@ -1695,5 +1698,432 @@ theorem order_of_pow_eq {a N m m' : Int} (ha : IsCoprime a N) (hm : 0 ≤ m) (hm
   rcases lt_or_gt_of_ne hne with hlt | hgt
   · exact key hm hlt h.symm
   · exact key hm' hgt h
+
+/-! ## 14. The unit group of `ℤ/n`: the bridge for arbitrary (also negative) exponents -/
+
+/-- The integer `y` represents the unit `u` of `ℤ/n`. -/
+def IsRep (n y : Int) (u : (ZMod n.toNat)ˣ) : Prop := ((y : Int) : ZMod n.toNat) = (u : ZMod n.toNat)
+
+theorem natCast_toNat {n : Int} (hn : 1 < n) : ((n.toNat : Nat) : Int) = n :=
+  Int.toNat_of_nonneg (by omega)
+
+theorem IsRep.mul {n a b : Int} {u v} (ha : IsRep n a u) (hb : IsRep n b v) : IsRep n (a * b) (u * v) := by
+  unfold IsRep at *; push_cast; rw [ha, hb]
+
+theorem IsRep.of_modEq {n a b : Int} {u} (hn : 1 < n) (h : a ≡ b [ZMOD n]) (hb : IsRep n b u) :
+    IsRep n a u := by
+  unfold IsRep at *
+  rw [← hb]
+  exact (ZMod.intCast_eq_intCast_iff a b n.toNat).2 (by rw [natCast_toNat hn]; exact h)
+
+theorem IsRep.emod {n a : Int} {u} (hn : 1 < n) (ha : IsRep n a u) : IsRep n (a % n) u :=
+  IsRep.of_modEq hn (Int.mod_modEq a n) ha
+
+theorem IsRep.tmod {n a : Int} {u} (hn : 1 < n) (ha : IsRep n a u) : IsRep n (tmod a n) u :=
+  IsRep.of_modEq hn (tmod_modEq a n) ha
+
+theorem IsRep.pow {n a : Int} {u} (ha : IsRep n a u) (k : Nat) : IsRep n (a ^ k) (u ^ k) := by
+  unfold IsRep at *; push_cast; rw [ha]
+
+theorem IsRep.modEq {n a b : Int} {u} (hn : 1 < n) (ha : IsRep n a u) (hb : IsRep n b u) :
+    a ≡ b [ZMOD n] := by
+  unfold IsRep at *
+  have := (ZMod.intCast_eq_intCast_iff a b n.toNat).1 (ha.trans hb.symm)
+  rwa [natCast_toNat hn] at this
+
+theorem IsRep.inj {n a : Int} {u v} (ha : IsRep n a u) (hb : IsRep n a v) : u = v :=
+  Units.ext (ha.symm.trans hb)
+
+theorem isRep_of_gcd {n g : Int} (hn : 1 < n) (hg : Int.gcd g n = 1) : ∃ u, IsRep n g u := by
+  obtain ⟨x, y, hxy⟩ := cop_iff.1 hg
+  have h1 : ((g : Int) : ZMod n.toNat) * (x : ZMod n.toNat) = 1 := by
+    have := congrArg (Int.cast (R := ZMod n.toNat)) hxy
+    push_cast at this
+    have hn0 : ((n : Int) : ZMod n.toNat) = 0 := by
+      rw [ZMod.intCast_zmod_eq_zero_iff_dvd, natCast_toNat hn]
+    rw [hn0, mul_zero, add_zero] at this
+    rw [mul_comm]; exact this
+  exact ⟨⟨g, x, h1, by rw [mul_comm]; exact h1⟩, rfl⟩
+
+open Classical in
+/-- the unit of `ℤ/n` represented by `g` (`1` when `g` is not invertible) -/
+noncomputable def unitOf (n g : Int) : (ZMod n.toNat)ˣ :=
+  if h : ∃ u, IsRep n g u then h.choose else 1
+
+theorem unitOf_spec {n g : Int} (hn : 1 < n) (hg : Int.gcd g n = 1) : IsRep n g (unitOf n g) := by
+  have h := isRep_of_gcd hn hg
+  unfold unitOf
+  rw [dif_pos h]
+  exact h.choose_spec
+
+/-- `pow_mod` on a representative of a unit, any exponent: the result represents `u^e` (`zpow`). -/
+theorem powMod_isRep (hA : ArithOK) {n g x e : Int} {u} (hn : 1 < n) (hgu : Int.gcd g n = 1)
+    (hg : IsRep n g u) (h : powMod g e n = some x) : IsRep n x (u ^ e) := by
+  have hn0 : 0 < n := by omega
+  by_cases he : 0 ≤ e
+  · rw [hA.powMod_nonneg g e n hn0 he] at h
+    rw [← Option.some.inj h]
+    have : u ^ e = u ^ e.toNat := by
+      conv_lhs => rw [← Int.toNat_of_nonneg he]
+      exact zpow_natCast u _
+    rw [this]
+    exact (hg.pow _).emod hn
+  · have he' : e < 0 := by omega
+    rw [hA.powMod_neg g e n hn0 he'] at h
+    obtain ⟨gi, hgi, -, -, hmul⟩ := invMod_of_gcd hA hn hgu
+    rw [hgi] at h
+    simp only [Option.map_some, Option.some.injEq] at h
+    rw [← h]
+    have hgi' : IsRep n gi u⁻¹ := by
+      have h2 : IsRep n (g * gi) 1 := by
+        refine IsRep.of_modEq hn (b := 1) ?_ (by unfold IsRep; simp)
+        show g * gi % n = 1 % n
+        rw [hmul, Int.emod_eq_of_lt (by norm_num) hn]
+      unfold IsRep at *
+      push_cast at h2
+      rw [hg] at h2
+      try simp only [Units.val_one] at h2
+      exact (Units.inv_eq_of_mul_eq_one_right h2).symm
+    have : u ^ e = u⁻¹ ^ (-e).toNat := by
+      have h3 : e = -(((-e).toNat : Nat) : Int) := by
+        rw [Int.toNat_of_nonneg (by omega)]; ring
+      conv_lhs => rw [h3]
+      rw [zpow_neg, zpow_natCast, inv_pow]
+    rw [this]
+    exact (hgi'.pow _).emod hn
+
+/-! ## 15. Special soundness (extraction of a representation) -/
+
+/-- The verification equation of `nisp2sec` with an explicit challenge `c` (the verifier uses
+`c = hashInts [g, h, C, t]`; an extractor rewinds and reprograms the challenge). -/
+def Nisp2secAccepts (g h n cv : Int) (π : NISPSecrets) (c : Int) : Prop :=
+  ∃ a b cc, powMod g π.s1 n = some a ∧ powMod h π.s2 n = some b ∧ powMod cv c n = some cc ∧
+    tmod (a * b) n = tmod (π.t * cc) n
+
+/-- `nisp2sec_verify_proof` accepts iff the verification equation holds for the hash challenge. -/
+theorem nisp2secVerify_true_iff (π : NISPSecrets) (cv g h n : Int) (s s' : List Draw) :
+    nisp2secVerify π cv g h n s = .ok (true, s') ↔
+      s' = s ∧ Nisp2secAccepts g h n cv π (hashInts [g, h, cv, π.t]) := by
+  unfold nisp2secVerify Nisp2secAccepts
+  simp only [bind_ok_iff, pw_ok_iff, pure_ok_iff, beq_iff_eq]
+  constructor
+  · rintro ⟨a, t1, ⟨ha, rfl⟩, b, t2, ⟨hb, rfl⟩, cc, t3, ⟨hc, rfl⟩, heq, rfl⟩
+    exact ⟨rfl, a, b, cc, ha, hb, hc, heq⟩
+  · rintro ⟨rfl, a, b, cc, ha, hb, hc, heq⟩
+    exact ⟨a, _, ⟨ha, rfl⟩, b, _, ⟨hb, rfl⟩, cc, _, ⟨hc, rfl⟩, heq, rfl⟩
+
+/-- The accepting equation in the unit group: `G^{s1} · H^{s2} = T · C^{c}`. -/
+theorem nisp2sec_accepts_units (hA : ArithOK) {g h n cv c : Int} {π : NISPSecrets} (hn : 1 < n)
+    (hg : Int.gcd g n = 1) (hh : Int.gcd h n = 1) (hc : Int.gcd cv n = 1)
+    (hacc : Nisp2secAccepts g h n cv π c) :
+    IsRep n π.t (unitOf n g ^ π.s1 * unitOf n h ^ π.s2 * (unitOf n cv ^ c)⁻¹) := by
+  obtain ⟨a, b, cc, ha, hb, hcc, heq⟩ := hacc
+  have ra := powMod_isRep hA hn hg (unitOf_spec hn hg) ha
+  have rb := powMod_isRep hA hn hh (unitOf_spec hn hh) hb
+  have rc := powMod_isRep hA hn hc (unitOf_spec hn hc) hcc
+  have h1 : IsRep n (tmod (π.t * cc) n) (unitOf n g ^ π.s1 * unitOf n h ^ π.s2) := by
+    rw [← heq]; exact (ra.mul rb).tmod hn
+  have h2 : π.t * cc ≡ tmod (π.t * cc) n [ZMOD n] := (tmod_modEq _ _).symm
+  have h3 := IsRep.of_modEq hn h2 h1
+  unfold IsRep at *
+  push_cast at h3
+  rw [rc] at h3
+  rw [Units.val_mul, Units.val_mul, ← h3, mul_assoc, ← Units.val_mul, mul_inv_cancel, Units.val_one,
+    mul_one]
+
+theorem comm_group_aux {U : Type} [CommGroup U] (A B A' B' K K' : U)
+    (e : A * B * K⁻¹ = A' * B' * K'⁻¹) : A * A'⁻¹ * (B * B'⁻¹) = K * K'⁻¹ := by
+  have e1 : A * B = A' * B' * K'⁻¹ * K := eq_mul_of_mul_inv_eq e
+  rw [mul_mul_mul_comm, ← mul_inv, e1, mul_comm (A' * B' * K'⁻¹ * K), ← mul_assoc, ← mul_assoc,
+    inv_mul_cancel, one_mul, mul_comm]
+
+/-- Pure group algebra behind special soundness. -/
+theorem special_soundness_group {U : Type} [CommGroup U] (G H C T : U) (s1 s2 s1' s2' c c' : Int)
+    (h : T = G ^ s1 * H ^ s2 * (C ^ c)⁻¹) (h' : T = G ^ s1' * H ^ s2' * (C ^ c')⁻¹) :
+    G ^ (s1 - s1') * H ^ (s2 - s2') = C ^ (c - c') := by
+  rw [zpow_sub, zpow_sub, zpow_sub]
+  exact comm_group_aux _ _ _ _ _ _ (h.symm.trans h')
+
+/-- The strong-RSA event of Fujisaki–Okamoto / Damgård–Fujisaki extraction: the challenge difference does
+not divide both response differences. (When it happens, the two transcripts give a non-trivial root of a
+known group element, which breaks the strong RSA assumption in `QR_N`; it cannot be excluded
+unconditionally.) -/
+def ChallengeNotDividing (d Δ1 Δ2 : Int) : Prop := ¬ (d ∣ Δ1 ∧ d ∣ Δ2)
+
+/-- a non-trivial unit of `ℤ/n` of order dividing `d` (for `N = (2p'+1)(2q'+1)` and `|d| < p', q'` the only
+such elements are the square roots of 1; none lies in `QR_N`). -/
+def SmallOrderUnit (n d : Int) : Prop := ∃ W : (ZMod n.toNat)ˣ, W ≠ 1 ∧ W ^ d = 1
+
+/-- **Special soundness of `nisp2sec`.** Two accepting transcripts with the same first message `t`, for the
+same statement `(g, h, n, C)` and challenges `c`, `c'`, give a representation of `C^{c-c'}`:
+`G^{s1-s1'} · H^{s2-s2'} = C^{c-c'}` in `(ℤ/n)ˣ`. (In an RSA group one cannot divide the exponents by
+`c - c'`; see `nisp2sec_extract`.) -/
+theorem nisp2sec_special_sound (hA : ArithOK) {g h n cv c c' : Int} {π π' : NISPSecrets} (hn : 1 < n)
+    (hg : Int.gcd g n = 1) (hh : Int.gcd h n = 1) (hc : Int.gcd cv n = 1) (ht : π.t = π'.t)
+    (hacc : Nisp2secAccepts g h n cv π c) (hacc' : Nisp2secAccepts g h n cv π' c') :
+    unitOf n g ^ (π.s1 - π'.s1) * unitOf n h ^ (π.s2 - π'.s2) = unitOf n cv ^ (c - c') := by
+  have r := nisp2sec_accepts_units hA hn hg hh hc hacc
+  have r' := nisp2sec_accepts_units hA hn hg hh hc hacc'
+  rw [← ht] at r'
+  exact special_soundness_group _ _ _ _ _ _ _ _ _ _ rfl (r.inj r')
+
+/-- **Extraction.** From two accepting transcripts with the same `t` and `c ≠ c'`: either `C` opens,
+`C = W · G^m · H^r` with `m = (s1-s1')/(c-c')`, `r = (s2-s2')/(c-c')` up to a unit `W` with `W^{c-c'} = 1`
+(so `C = G^m H^r` or `SmallOrderUnit`), or the strong-RSA event `ChallengeNotDividing` happened. -/
+theorem nisp2sec_extract (hA : ArithOK) {g h n cv c c' : Int} {π π' : NISPSecrets} (hn : 1 < n)
+    (hg : Int.gcd g n = 1) (hh : Int.gcd h n = 1) (hc : Int.gcd cv n = 1) (ht : π.t = π'.t)
+    (hacc : Nisp2secAccepts g h n cv π c) (hacc' : Nisp2secAccepts g h n cv π' c') :
+    unitOf n cv = unitOf n g ^ ((π.s1 - π'.s1) / (c - c')) * unitOf n h ^ ((π.s2 - π'.s2) / (c - c')) ∨
+      SmallOrderUnit n (c - c') ∨ ChallengeNotDividing (c - c') (π.s1 - π'.s1) (π.s2 - π'.s2) := by
+  by_cases hd : (c - c') ∣ (π.s1 - π'.s1) ∧ (c - c') ∣ (π.s2 - π'.s2)
+  · have hs := nisp2sec_special_sound hA hn hg hh hc ht hacc hacc'
+    obtain ⟨⟨m, hm⟩, ⟨r, hr⟩⟩ := hd
+    set d := c - c' with hdd
+    by_cases hd0 : d = 0
+    · -- then Δs1 = Δs2 = 0 and nothing is learnt: `W = C / (G^0 H^0)`, `W^0 = 1`
+      by_cases hC1 : unitOf n cv = 1
+      · left
+        rw [hm, hr, hd0]; simp [hC1]
+      · right; left
+        exact ⟨unitOf n cv, hC1, by rw [hd0]; simp⟩
+    · rw [hm, hr, Int.mul_ediv_cancel_left _ hd0, Int.mul_ediv_cancel_left _ hd0]
+      rw [hm, hr, zpow_mul', zpow_mul', ← mul_zpow] at hs
+      by_cases hW : unitOf n cv * (unitOf n g ^ m * unitOf n h ^ r)⁻¹ = 1
+      · left
+        exact mul_inv_eq_one.1 hW
+      · right; left
+        refine ⟨_, hW, ?_⟩
+        rw [mul_zpow, inv_zpow, hs, mul_inv_cancel]
+  · exact Or.inr (Or.inr hd)
+
+/-! ### the multi-base version -/
+
+/-- `Π_j A_j^{e_j}` in a commutative group -/
+def gprod {U : Type} [CommGroup U] (As : List U) (es : List Int) : U :=
+  (List.zipWith (fun a e => a ^ e) As es).prod
+
+theorem gprod_sub {U : Type} [CommGroup U] :
+    ∀ (As : List U) (es es' : List Int), es.length = es'.length →
+      gprod As es * (gprod As es')⁻¹ = gprod As (List.zipWith (· - ·) es es') := by
+  intro As
+  induction As with
+  | nil => intro es es' _; simp [gprod]
+  | cons A As ih =>
+    intro es es' hl
+    cases es with
+    | nil =>
+      cases es' with
+      | nil => simp [gprod]
+      | cons e' es' => simp at hl
+    | cons e es =>
+      cases es' with
+      | nil => simp at hl
+      | cons e' es' =>
+        have := ih es es' (by simpa using hl)
+        simp only [gprod, List.zipWith_cons_cons, List.prod_cons] at this ⊢
+        rw [← this, zpow_sub, mul_inv]
+        exact mul_mul_mul_comm _ _ _ _
+
+/-- `prodPowZip` in the unit group, for arbitrary (also negative) exponents. -/
+theorem prodPowZip_isRep (hA : ArithOK) {N : Int} {bases : List Int} (hN : 1 < N)
+    (hau : ∀ a ∈ bases, Int.gcd a N = 1) :
+    ∀ (ix : List Nat) (es : List Int) (acc x : Int) (t t' : List Draw) (A : (ZMod N.toNat)ˣ),
+      IsRep N acc A → prodPowZip N bases ix es acc t = .ok (x, t') →
+      IsRep N x (A * gprod (ix.map fun i => unitOf N (bases.getD i 1)) es) := by
+  intro ix
+  induction ix with
+  | nil =>
+    intro es acc x t t' A hacc h
+    simp only [prodPowZip, pure_ok_iff] at h
+    obtain ⟨rfl, rfl⟩ := h
+    simpa [gprod] using hacc
+  | cons i is ih =>
+    intro es acc x t t' A hacc h
+    simp only [prodPowZip, bind_ok_iff, idx_ok_iff, pw_ok_iff] at h
+    obtain ⟨a, t1, ⟨ha, rfl⟩, e, t2, ⟨he, rfl⟩, y, t3, ⟨hy, rfl⟩, hrest⟩ := h
+    obtain ⟨ha1, -⟩ := getElem?_getD ha 1
+    have hau' : Int.gcd a N = 1 := hau a (List.mem_of_getElem? ha)
+    cases es with
+    | nil => simp at he
+    | cons e' es' =>
+      simp only [List.getElem?_cons_zero, Option.some.injEq] at he
+      subst he
+      have ry := powMod_isRep hA hN hau' (unitOf_spec hN hau') hy
+      have := ih es' _ _ _ _ _ (hacc.mul ry) hrest
+      simp only [List.map_cons, gprod, List.zipWith_cons_cons, List.prod_cons, ha1] at this ⊢
+      rw [← mul_assoc]; exact this
+
+/-- The verification equation of `nispMultiSecrets` with an explicit challenge `c`. -/
+def NispMultiAccepts (pk : PublicKey) (bases : List Int) (U : List Nat) (cv : Int)
+    (π : NISPMultiSecrets) (c : Int) : Prop :=
+  U.length = π.s1.length ∧ ∃ x hs cc, prodPowZip pk.N bases U π.s1 1 [] = .ok (x, []) ∧
+    powMod pk.b π.s2 pk.N = some hs ∧ powMod cv c pk.N = some cc ∧
+    tmod (x * hs) pk.N = tmod (π.t * cc) pk.N
+
+/-- `nispMultiSecrets_verify_proof` accepts iff the indexes are in range and the verification equation
+holds for the challenge `hashInts (a_{U} ++ [b, C, t])`. -/
+theorem nispMultiSecretsVerify_true_iff (π : NISPMultiSecrets) (cv : Int) (pk : PublicKey)
+    (bases : List Int) (U : List Nat) (s s' : List Draw) :
+    nispMultiSecretsVerify π cv pk bases (some U) s = .ok (true, s') ↔
+      s' = s ∧ (∀ i ∈ U, i < bases.length) ∧
+        NispMultiAccepts pk bases U cv π
+          (hashInts (U.map (fun i => bases.getD i 1) ++ [pk.b, cv, π.t])) := by
+  unfold nispMultiSecretsVerify NispMultiAccepts
+  simp only [Option.getD_some]
+  constructor
+  · intro h
+    split at h
+    · cases h
+    rename_i hlen
+    simp only [bind_ok_iff, pw_ok_iff, pure_ok_iff, beq_iff_eq] at h
+    obtain ⟨x, t1, hx, as, t2, has, hs, t3, ⟨hhs, rfl⟩, cc, t4, ⟨hcc, rfl⟩, heq, rfl⟩ := h
+    have ht1 := (prodPowZip_tapeFree _ _ _ _ _).tape_eq hx
+    subst ht1
+    obtain ⟨rfl, rfl, hin⟩ := mapM_idx_elim _ _ _ _ has
+    exact ⟨rfl, hin, not_not.1 hlen, x, hs, cc, (prodPowZip_tapeFree _ _ _ _ _).ok_any hx [], hhs, hcc,
+      heq⟩
+  · rintro ⟨hss, hin, hlen, x, hs, cc, hx, hhs, hcc, heq⟩
+    rw [hss, if_neg (not_not.2 hlen), bind_of_ok ((prodPowZip_tapeFree _ _ _ _ _).ok_any hx s),
+      bind_of_ok (mapM_idx_run _ s hin), bind_of_ok (pw_run hhs s), bind_of_ok (pw_run hcc s), pure_run,
+      heq]
+    simp
+
+/-- **Special soundness of `nispMultiSecrets`.** Two accepting transcripts with the same `t` for the same
+statement and challenges `c`, `c'` give `Π_j A_{U_j}^{s1_j - s1'_j} · B^{s2 - s2'} = C^{c - c'}` in
+`(ℤ/N)ˣ`: a representation of `C^{c-c'}` in the bases `a_{U_j}`, `b`. Extraction of the attributes again
+needs `(c - c')` to divide all response differences (`ChallengeNotDividing` otherwise). -/
+theorem nispMulti_special_sound (hA : ArithOK) {pk : PublicKey} {bases : List Int} {U : List Nat}
+    {cv c c' : Int} {π π' : NISPMultiSecrets} (hN : 1 < pk.N) (hbu : Int.gcd pk.b pk.N = 1)
+    (hau : ∀ a ∈ bases, Int.gcd a pk.N = 1) (hc : Int.gcd cv pk.N = 1) (ht : π.t = π'.t)
+    (hacc : NispMultiAccepts pk bases U cv π c) (hacc' : NispMultiAccepts pk bases U cv π' c') :
+    gprod (U.map fun i => unitOf pk.N (bases.getD i 1)) (List.zipWith (· - ·) π.s1 π'.s1) *
+        unitOf pk.N pk.b ^ (π.s2 - π'.s2) = unitOf pk.N cv ^ (c - c') := by
+  have key : ∀ {ρ : NISPMultiSecrets} {k : Int}, NispMultiAccepts pk bases U cv ρ k →
+      IsRep pk.N ρ.t (gprod (U.map fun i => unitOf pk.N (bases.getD i 1)) ρ.s1 *
+        unitOf pk.N pk.b ^ ρ.s2 * (unitOf pk.N cv ^ k)⁻¹) := by
+    intro ρ k hk
+    obtain ⟨-, x, hs, cc, hx, hhs, hcc, heq⟩ := hk
+    have rx := prodPowZip_isRep hA hN hau U ρ.s1 1 x [] [] 1 (by unfold IsRep; simp) hx
+    rw [one_mul] at rx
+    have rb := powMod_isRep hA hN hbu (unitOf_spec hN hbu) hhs
+    have rc := powMod_isRep hA hN hc (unitOf_spec hN hc) hcc
+    have h1 := (rx.mul rb).tmod hN
+    rw [heq] at h1
+    have h3 := IsRep.of_modEq hN (tmod_modEq (ρ.t * cc) pk.N).symm h1
+    unfold IsRep at *
+    push_cast at h3
+    rw [rc] at h3
+    rw [Units.val_mul, Units.val_mul, ← h3, mul_assoc, ← Units.val_mul, mul_inv_cancel, Units.val_one,
+      mul_one]
+  have r := key hacc
+  have r' := key hacc'
+  rw [← ht] at r'
+  have e := r.inj r'
+  rw [← gprod_sub _ _ _ (hacc.1.symm.trans hacc'.1), zpow_sub, zpow_sub]
+  exact comm_group_aux _ _ _ _ _ _ e
+
+/-! ## 16. Equal challenges -/
+
+theorem compress_size (h : Array UInt32) (blk : Array UInt8) (off : Nat) :
+    (Sha256.compress h blk off).size = 8 := by
+  unfold Sha256.compress
+  simp only [Id.run, bind, pure]
+  rfl
+
+theorem serialize_length (h : Array UInt32) : (Sha256.serialize h).length = 4 * h.size := by
+  unfold Sha256.serialize
+  rw [List.length_flatMap]
+  simp; omega
+
+theorem foldl_compress_size (p : Array UInt8) (l : List Nat) (h : Array UInt32) (hs : h.size = 8) :
+    (l.foldl (fun s i => Sha256.compress s p (64 * i)) h).size = 8 := by
+  induction l generalizing h with
+  | nil => exact hs
+  | cons a l ih => exact ih _ (compress_size _ _ _)
+
+/-- The model's SHA-256 always returns 32 bytes. -/
+theorem sha256_length (m : Bytes) : (sha256 m).length = 32 := by
+  unfold sha256
+  simp only [Id.run, bind, pure]
+  rw [serialize_length]
+  simp
+  have := List.forIn_pure_yield_eq_foldl (m := Id) (l := List.range' 0 ((Sha256.pad m).size / 64))
+    (fun i s => Sha256.compress s (Sha256.pad m) (64 * i)) Sha256.H0
+  simp only [pure] at this
+  rw [this, foldl_compress_size _ _ _ rfl]
+
+theorem os2ip_foldl_inj (b b' : Bytes) (acc acc' : Nat) (hl : b.length = b'.length)
+    (h : b.foldl (fun acc x => acc * 256 + x.toNat) acc = b'.foldl (fun acc x => acc * 256 + x.toNat) acc') :
+    acc = acc' ∧ b = b' := by
+  induction b generalizing b' acc acc' with
+  | nil =>
+    cases b' with
+    | nil => exact ⟨h, rfl⟩
+    | cons y ys => simp at hl
+  | cons x xs ih =>
+    cases b' with
+    | nil => simp at hl
+    | cons y ys =>
+      simp only [List.length_cons, Nat.add_right_cancel_iff] at hl
+      simp only [List.foldl_cons] at h
+      obtain ⟨h1, h2⟩ := ih ys _ _ hl h
+      have hx := UInt8.toNat_lt x
+      have hy := UInt8.toNat_lt y
+      have h3 : x.toNat = y.toNat := by omega
+      exact ⟨by omega, by rw [UInt8.toNat_inj.mp h3, h2]⟩
+
+/-- Two different challenge inputs with the same challenge: the decimal concatenations coincide
+(`ConcatAmbiguity`) or SHA-256 collides (`ClHashCollision`). -/
+theorem hashInts_collision {l l' : List Int} (hne : l ≠ l') (h : hashInts l = hashInts l') :
+    ConcatAmbiguity ∨ ClHashCollision := by
+  by_cases hb : l.flatMap decimalBytes = l'.flatMap decimalBytes
+  · exact Or.inl ⟨l, l', hne, hb⟩
+  · right
+    refine ⟨_, _, hb, ?_⟩
+    unfold hashInts at h
+    exact (os2ip_foldl_inj _ _ 0 0 (by rw [sha256_length, sha256_length]) (Int.ofNat.inj h)).2
+
+theorem IsRep.cop {n a : Int} {u} (hn : 1 < n) (ha : IsRep n a u) : IsCoprime a n := by
+  unfold IsRep at ha
+  obtain ⟨w, hw⟩ := ZMod.intCast_surjective ((u⁻¹ : (ZMod n.toNat)ˣ) : ZMod n.toNat)
+  have h1 : ((a * w - 1 : Int) : ZMod n.toNat) = 0 := by
+    push_cast; rw [ha, hw]; simp
+  rw [ZMod.intCast_zmod_eq_zero_iff_dvd, natCast_toNat hn] at h1
+  obtain ⟨k, hk⟩ := h1
+  exact ⟨w, -k, by linarith⟩
+
+/-- The components of an accepting `ZKPoK::verify_proof`. -/
+theorem zkpokVerify_true_elim {cs : Suite} {π : ZKPoK} {Cv : Int} {Ctv : Option Int} {pk : PublicKey}
+    {bases : List Int} {cpk : Option CommitmentPK} {U : List Nat} {t t' : List Draw}
+    (h : zkpokVerify cs π Cv Ctv pk bases cpk U t = .ok (true, t')) :
+    nispMultiSecretsVerify π.proofMsgs Cv pk bases (some U) [] = .ok (true, []) ∧
+    zkMiVerifyLoop cs pk bases π U 0 [] = .ok (true, []) ∧
+    (∀ ct k, Ctv = some ct → cpk = some k → ∃ p, π.proofCCtrusted = some p ∧
+      nisp2Verify p Cv ct pk bases k U [] = .ok (true, [])) := by
+  unfold zkpokVerify at h
+  simp only [bind_ok_iff] at h
+  obtain ⟨okT, t1, hT, h⟩ := h
+  cases okT with
+  | false => simp only [Bool.not_false, if_true, pure_ok_iff] at h; exact absurd h.1 (by decide)
+  | true =>
+    rw [not_true_if] at h
+    simp only [bind_ok_iff] at h
+    obtain ⟨ok1, t2, h1, h⟩ := h
+    cases ok1 with
+    | false => simp only [Bool.not_false, if_true, pure_ok_iff] at h; exact absurd h.1 (by decide)
+    | true =>
+      rw [not_true_if] at h
+      simp only [bind_ok_iff] at h
+      obtain ⟨ok2, t3, h2, h⟩ := h
+      cases ok2 with
+      | false => simp only [Bool.not_false, if_true, pure_ok_iff] at h; exact absurd h.1 (by decide)
+      | true =>
+        refine ⟨(nispMultiSecretsVerify_tapeFree _ _ _ _ _).ok_any h1 [],
+          (zkMiVerifyLoop_tapeFree _ _ _ _ _ _).ok_any h2 [], ?_⟩
+        intro ct k h3 h4
+        subst h3 h4
+        simp only [bind_ok_iff, ofOpt_ok_iff] at hT
+        obtain ⟨p, t0, ⟨hp, rfl⟩, hv⟩ := hT
+        exact ⟨p, hp, (nisp2Verify_tapeFree _ _ _ _ _ _ _).ok_any hv []⟩
 
 end Zk.ClSigma
